@@ -38,25 +38,15 @@ def regenerate():
         subprocess.run([sys.executable, gen], check=True, cwd=VERIF)
 
 
-def kani_build():
-    """Compile /repo's working tree + harness crate into goto binaries (all harnesses)."""
-    os.makedirs(LOGS, exist_ok=True)
-    t0 = time.time()
-    # same compiler-affecting flags as the per-harness runs, so those find the goto binaries fresh
-    cmd = ["cargo", "kani", "--target-dir", TARGET, "-Z", "stubbing", "--only-codegen",
-           "--no-assertion-reach-checks", "--output-format", "terse"]
-    p = subprocess.run(cmd, cwd=KANI_DIR, env=ENV, stdout=subprocess.PIPE, stderr=subprocess.STDOUT, text=True)
-    with open(os.path.join(LOGS, "build.log"), "w") as f:
-        f.write(p.stdout)
-    if p.returncode != 0:
-        log(p.stdout[-6000:])
-        log("BUILD-FAILED: cargo kani --only-codegen exited", p.returncode)
-        return None
-    # warm-up: the first verifying invocation re-codegens the harness crate once; do that here,
-    # alone, so that the parallel harness runs below only read the goto binaries.
-    w = {"name": "leaf::l_undo_bytes", "timeout": 300}
-    run_proc(kani_cmd(w), KANI_DIR, 300, 12, os.path.join(LOGS, "warmup.log"))
-    return time.time() - t0
+FEATURES = []
+
+
+def feature_args():
+    return ["--features", ",".join(FEATURES)] if FEATURES else []
+
+
+def set_features(features=()):
+    FEATURES[:] = sorted(set(f for f in features if f))
 
 
 def replay_build(profile):
@@ -80,14 +70,21 @@ def _limits(mem_gb):
     return f
 
 
-def kani_cmd(h, playback=False):
-    cmd = ["cargo", "kani", "--target-dir", TARGET, "-Z", "stubbing",
-           "--harness", h["name"], "--exact", "--no-assertion-reach-checks",
-           "--output-format", "terse"]
+def kani_cmd(hs, playback=False, jobs=1, timeout=None):
+    """One cargo-kani invocation for a list of harnesses that share mode / cbmc args."""
+    h0 = hs[0]
+    cmd = ["cargo", "kani", "--target-dir", TARGET, "-Z", "stubbing", "-Z", "unstable-options"]
+    for h in hs:
+        cmd += ["--harness", h["name"]]
+    cmd += ["--exact", "--no-assertion-reach-checks", "--output-format", "terse"] + feature_args()
+    if jobs > 1:
+        cmd += ["-j", str(jobs)]
+    if timeout:
+        cmd += ["--harness-timeout", "%ds" % timeout]
     if playback:
         cmd += ["-Z", "concrete-playback", "--concrete-playback=print"]
-    cbmc = list(h.get("cbmc_args", []))
-    if h.get("mode") == "path":
+    cbmc = list(h0.get("cbmc_args", []))
+    if h0.get("mode") == "path":
         cbmc += ["--paths", "lifo"]
     if cbmc:
         cmd += ["--cbmc-args"] + cbmc
@@ -144,15 +141,42 @@ def parse_kani(out):
     return r
 
 
-def run_harness(h):
-    """Returns a result dict with status in {pass, violation, inconclusive, twin_ok, twin_bad}."""
+RE_THREAD_CHECK = re.compile(r"^(?:Thread (\d+): )?Checking harness (\S+?)\.\.\.")
+RE_THREAD = re.compile(r"^Thread (\d+): ?(.*)$")
+
+
+def split_output(out):
+    """Attribute the (possibly thread-interleaved) terse output to harnesses."""
+    cur, blocks, active = {}, {}, None
+    for line in out.splitlines():
+        m = RE_THREAD_CHECK.match(line)
+        if m:
+            tid = m.group(1) or "0"
+            cur[tid] = m.group(2)
+            blocks.setdefault(m.group(2), [])
+            active = m.group(2) if m.group(1) is None else None
+            continue
+        m = RE_THREAD.match(line)
+        if m:
+            active = cur.get(m.group(1))
+            if active is not None:
+                blocks[active].append(m.group(2))
+            continue
+        if line.startswith("Manual Harness Summary") or line.startswith("Complete - "):
+            active = None
+            continue
+        if active is not None:
+            blocks[active].append(line)
+    return {k: "\n".join(v) for k, v in blocks.items()}
+
+
+def classify(h, out, wall):
+    """status in {pass, violation, inconclusive, twin_ok, twin_bad} from one harness' output block."""
     name = h["name"]
-    logpath = os.path.join(LOGS, name.replace("::", "__") + ".log")
-    rc, timed_out, wall, out = run_proc(kani_cmd(h), KANI_DIR, h.get("timeout", 300), h.get("mem_gb", 12), logpath)
     r = parse_kani(out)
-    r.update({"name": name, "wall_s": round(wall, 2), "log": logpath})
+    r.update({"name": name, "wall_s": round(wall, 2)})
     expect_fail = h.get("expect_fail", False)
-    if timed_out:
+    if "CBMC timed out" in out:
         r["status"], r["why"] = "inconclusive", "timeout after %ds" % h.get("timeout", 300)
     elif r["verdict"] == "SUCCESSFUL":
         if r["covers"] is not None and r["covers_sat"] != r["covers"]:
@@ -166,29 +190,74 @@ def run_harness(h):
             r["status"] = "violation"
         elif r["unwind_fail"]:
             r["status"], r["why"] = "inconclusive", "unwinding assertion failed (bound too small): " + "; ".join(r["failed_checks"][:3])
-        elif r["failed"] == 0:
-            # "0 of N failed ... FAILED": CBMC was killed by the address-space cap in
-            # post-processing, or a cover was unsatisfiable.
-            if r["covers"] is not None and r["covers_sat"] != r["covers"]:
-                r["status"], r["why"] = "inconclusive", "vacuity: %s of %s covers satisfied" % (r["covers_sat"], r["covers"])
-            else:
-                r["status"], r["why"] = "inconclusive", "FAILED with no failing check (resource limit)"
+        elif r["failed"] == 0 and r["covers"] is not None and r["covers_sat"] != r["covers"]:
+            r["status"], r["why"] = "inconclusive", "vacuity: %s of %s covers satisfied" % (r["covers_sat"], r["covers"])
         else:
-            r["status"], r["why"] = "inconclusive", "FAILED, failing checks not listed"
+            # "CBMC failed" / "0 of N failed ... FAILED": killed by the address-space cap or crashed
+            r["status"], r["why"] = "inconclusive", "FAILED with no failing check (resource limit or tool failure): " + out[-200:].replace("\n", " | ")
     else:
-        r["status"], r["why"] = "inconclusive", "no verdict (rc=%s): %s" % (rc, out[-300:].replace("\n", " | "))
-    # stub sanity: every expected stub must have been applied
-    for s in h.get("stubs", []):
-        if not any(s in line for line in r["stubs"]):
+        r["status"], r["why"] = "inconclusive", "no verdict: " + out[-300:].replace("\n", " | ")
+    for s_ in h.get("stubs", []):
+        if not any(s_ in line for line in r["stubs"]):
             if r["status"] == "pass":
-                r["status"], r["why"] = "inconclusive", "expected stub not applied: " + s
+                r["status"], r["why"] = "inconclusive", "expected stub not applied: " + s_
     if expect_fail:
-        # deliberately false twin: must come back violated
         if r["status"] == "violation":
             r["status"] = "twin_ok"
         elif r["status"] == "pass":
             r["status"], r["why"] = "twin_bad", "false twin passed: harness family is vacuous"
     return r
+
+
+def run_group(hs, jobs, tag):
+    """Run harnesses sharing mode/cbmc args in one cargo-kani invocation (one compile, -j jobs)."""
+    tmo = max(h.get("timeout", 300) for h in hs)
+    mem = max(h.get("mem_gb", 12) for h in hs)
+    logpath = os.path.join(LOGS, "group_%s.log" % tag)
+    t0 = time.time()
+    # overall cap: every harness could hit its timeout in each of ceil(n/jobs) waves, plus compile
+    waves = (len(hs) + jobs - 1) // jobs
+    rc, timed_out, wall, out = run_proc(kani_cmd(hs, jobs=jobs, timeout=tmo), KANI_DIR, 600 + waves * (tmo + 60), mem, logpath)
+    res = []
+    if "could not compile" in out or "Failed to execute cargo" in out or "error: no harnesses matched" in out.lower():
+        log(out[-5000:])
+        log("BUILD-FAILED (see %s)" % logpath)
+        return None
+    blocks = split_output(out)
+    for h in hs:
+        blk = blocks.get(h["name"])
+        if blk is None:
+            r = {"name": h["name"], "status": "inconclusive", "why": "no output for harness (rc=%s, overall timeout=%s)" % (rc, timed_out),
+                 "checks": None, "failed": None, "covers": None, "covers_sat": None, "solver_s": None, "wall_s": round(wall, 2),
+                 "real_failed_checks": [], "failed_checks": []}
+        else:
+            r = classify(h, blk, wall)
+        r["log"] = logpath
+        res.append(r)
+    return res
+
+
+def group_key(h):
+    return (h.get("mode", "merge"), tuple(h.get("cbmc_args", [])), bool(h.get("heavy")))
+
+
+def run_all(sel, jobs):
+    groups = {}
+    for h in sel:
+        groups.setdefault(group_key(h), []).append(h)
+    results = []
+    for gi, (k, hs) in enumerate(sorted(groups.items(), key=lambda kv: str(kv[0]))):
+        hs.sort(key=lambda h: -h.get("timeout", 300))
+        j = min(jobs, len(hs), 3 if k[2] else jobs)
+        r = run_group(hs, j, "%s_%d" % (k[0], gi))
+        if r is None:
+            return None
+        for x in r:
+            log("  %-52s %-12s checks=%s covers=%s/%s solver=%ss %s %s" % (
+                x["name"], x["status"], x["checks"], x["covers_sat"], x["covers"], x["solver_s"],
+                x.get("why", ""), "; ".join(x.get("real_failed_checks", [])[:3])))
+        results += r
+    return results
 
 
 # ---------------------------------------------------------------- counterexamples and replay
@@ -199,16 +268,27 @@ RE_VEC = re.compile(r"//\s*(.*)\n\s*vec!\[([0-9, ]*)\]")
 def concrete_values(h):
     """Re-run with concrete playback and return the list of (comment, bytes) per kani::any()."""
     logpath = os.path.join(LOGS, h["name"].replace("::", "__") + ".playback.log")
-    rc, timed_out, wall, out = run_proc(kani_cmd(h, playback=True), KANI_DIR, h.get("timeout", 300) * 2,
-                                        h.get("mem_gb", 12), logpath)
-    vals = []
-    for m in RE_VEC.finditer(out):
-        b = [int(x) for x in m.group(2).replace(" ", "").split(",") if x != ""]
-        vals.append({"shown": m.group(1).strip(), "bytes": b})
-    test_src = None
-    m = re.search(r"(#\[test\]\nfn kani_concrete_playback_.*?\n\}\n)", out, re.S)
-    if m:
-        test_src = m.group(1)
+    rc, timed_out, wall, out = run_proc(kani_cmd([h], playback=True), KANI_DIR, h.get("timeout", 300) * 3 + 300,
+                                        max(32, 2 * h.get("mem_gb", 12)), logpath)
+    # one section per failing check *and* per satisfied cover; keep the failing checks only
+    sections = out.split("Concrete playback unit test for")[1:]
+    chosen = None
+    for sec in sections:
+        m = re.search(r"Check for `(\w+)`: \"(.*)\"", sec)
+        kind = m.group(1) if m else "?"
+        if kind == "cover" or (m and "unwinding assertion" in m.group(2)):
+            continue
+        chosen = (sec, m.group(2) if m else None)
+        break
+    vals, test_src, what = [], None, None
+    if chosen:
+        sec, what = chosen
+        for m in RE_VEC.finditer(sec):
+            b = [int(x) for x in m.group(2).replace(" ", "").split(",") if x != ""]
+            vals.append({"shown": m.group(1).strip(), "bytes": b})
+        m = re.search(r"(#\[test\]\nfn kani_concrete_playback_.*?\n\}\n)", sec, re.S)
+        if m:
+            test_src = m.group(1)
     return vals, test_src, out
 
 
@@ -252,13 +332,14 @@ def playback_native(h, test_src):
     return results
 
 
-def native_cmd_replay(h, vals):
+def native_cmd_replay(pid, h, vals):
     spec = h["replay"]
     names = spec["vals"]
-    env = {}
+    env = {"pid": pid}
+    if len(vals) < len(names):
+        return {"dev": {"reproduced": False, "built": False, "tail": "no concrete values extracted"}}, {}
     for i, n in enumerate(names):
-        if i < len(vals):
-            env[n] = le(vals[i]["bytes"])
+        env[n] = le(vals[i]["bytes"])
     if "map" in spec:
         env = spec["map"](env)
     args = [a.format(**env) for a in spec["cmd"]]
@@ -269,7 +350,7 @@ def native_cmd_replay(h, vals):
             results[prof] = {"reproduced": False, "built": False, "tail": "replay build failed"}
             continue
         p = subprocess.run([b] + args, stdout=subprocess.PIPE, stderr=subprocess.STDOUT, text=True, timeout=600)
-        results[prof] = {"reproduced": "REPRODUCED" in p.stdout and p.returncode == 1, "built": True,
+        results[prof] = {"reproduced": ("REPRODUCED " + pid) in p.stdout and p.returncode == 1, "built": True,
                          "tail": p.stdout[-1500:], "argv": ["mzreplay"] + args}
     return results, env
 
@@ -285,7 +366,7 @@ def triage_violation(pid, h, r):
     rep["replay_kind"] = kind
     sig_env = {}
     if kind == "native":
-        res, sig_env = native_cmd_replay(h, vals)
+        res, sig_env = native_cmd_replay(pid, h, vals)
         rep["native"] = res
         reproduced = any(x["reproduced"] for x in res.values())
     elif kind == "playback" and test_src:
@@ -333,9 +414,12 @@ def replay_file(path):
         log("unknown harness in replay file")
         return 2
     regenerate()
-    if kani_build() is None:
+    set_features([h.get("feature")])
+    os.makedirs(LOGS, exist_ok=True)
+    rr = run_group([h], 1, "replay")
+    if rr is None:
         return 2
-    r = run_harness(h)
+    r = rr[0]
     log("re-run of %s: %s %s" % (h["name"], r["status"], r.get("why", "")))
     if r["status"] != "violation":
         return 0 if r["status"] == "pass" else 2
@@ -344,9 +428,26 @@ def replay_file(path):
     return 1 if reproduced else 2
 
 
+def dev_run(pattern):
+    """development aid: run every registered harness whose name matches the regex."""
+    regenerate()
+    os.makedirs(LOGS, exist_ok=True)
+    reg = [h for h in load_registry() if re.search(pattern, h["name"])]
+    set_features([h.get("feature") for h in reg])
+    jobs = int(os.environ.get("VERIF_JOBS", "0") or 0) or 12
+    t0 = time.time()
+    res = run_all(reg, jobs)
+    if res is None:
+        return 2
+    log("%d harnesses in %.0fs" % (len(res), time.time() - t0))
+    return 1 if any(r["status"] not in ("pass", "twin_ok") for r in res) else 0
+
+
 def main(argv):
     if len(argv) >= 2 and argv[0] == "--replay":
         return replay_file(argv[1])
+    if len(argv) >= 2 and argv[0] == "--run":
+        return dev_run(argv[1])
     if not argv:
         log(__doc__ if __doc__ else "usage: check <id> [quick|thorough]")
         return 2
@@ -371,27 +472,12 @@ def main(argv):
     # heaviest first so the pool drains evenly
     sel.sort(key=lambda h: -h.get("timeout", 300))
 
-    bt = kani_build()
-    if bt is None:
-        return 2
-    log("built goto binaries from /repo working tree in %.1fs; %d harnesses for %s/%s" % (bt, len(sel), pid, tier))
-
+    set_features([h.get("feature") for h in sel])
     jobs = int(os.environ.get("VERIF_JOBS", "0") or 0) or min(12, max(1, (os.cpu_count() or 4) - 2))
-    heavy_sem = threading.Semaphore(int(os.environ.get("VERIF_HEAVY", "4")))
-
-    def work(h):
-        if h.get("heavy"):
-            with heavy_sem:
-                return run_harness(h)
-        return run_harness(h)
-
-    results = []
-    with ThreadPoolExecutor(max_workers=jobs) as ex:
-        for r in ex.map(work, sel):
-            results.append(r)
-            log("  %-58s %-12s checks=%s covers=%s/%s solver=%ss wall=%ss %s" % (
-                r["name"], r["status"], r["checks"], r["covers_sat"], r["covers"], r["solver_s"], r["wall_s"],
-                r.get("why", "")))
+    log("%d harnesses for %s/%s (features: %s)" % (len(sel), pid, tier, ",".join(FEATURES) or "-"))
+    results = run_all(sel, jobs)
+    if results is None:
+        return 2
 
     byname = {h["name"]: h for h in sel}
     known = load_known()
